@@ -476,7 +476,7 @@ Print Assumptions c04_base_arity_checks_as_model.
 
 Theorem c04_operator_guards_in_source :
   max_number_exponent_src = max_number_exponent /\ forallb snd operator_guards = true
-  /\ List.length operator_guards = 8%nat.
+  /\ List.length operator_guards = 9%nat.
 Proof. exact operator_guards_in_source. Qed.
 Print Assumptions c04_operator_guards_in_source.
 
